@@ -670,6 +670,7 @@ func (a *Agent) startConnectivityChecks(isControlling bool, remoteUfrag, remoteP
 		a.remoteUfrag = remoteUfrag
 		a.remotePwd = remotePwd
 		a.setSelector()
+		a.updatePairRoles()
 
 		a.startedFn()
 
@@ -1717,6 +1718,18 @@ func (a *Agent) handleRoleConflict(msg *stun.Message, local, remote Candidate, r
 	} else {
 		a.isControlling.Store(!a.isControlling.Load())
 		a.setSelector()
+		a.updatePairRoles()
+	}
+}
+
+// updatePairRoles makes the pairs formed so far compute their priority for the agent's
+// current role: a pair formed before the role was known, or before a role switch
+// (RFC 8445 section 7.3.1.1), would otherwise keep the controlling and the controlled
+// candidate swapped in the pair priority formula.
+func (a *Agent) updatePairRoles() {
+	controlling := a.isControlling.Load()
+	for _, p := range a.checklist {
+		p.iceRoleControlling = controlling
 	}
 }
 
